@@ -113,14 +113,14 @@ class Tm:
     @staticmethod
     def oracle(case, obs):
         a, b = obs.get("a"), obs.get("b")
-        if a != b:
-            return "the two implementations disagree on %r: %r vs %r" % (case["s"], a, b)
         m = Tm._rx.match(case["s"])
         if not m:
             return None      # the property speaks about valid TM strings only
         hh, mm, ss, ff = m.groups()
-        if ss is not None and ":" in case["s"] and case["s"].count(":") != 2:
-            return None
+        if ":" in case["s"] and case["s"].count(":") != (2 if ss is not None else 1 if mm is not None else 0):
+            return None      # colons must separate every field or none
+        if a != b:
+            return "the two implementations disagree on the TM string %r: %r vs %r" % (case["s"], a, b)
         exact = int(hh) * 3600 + (int(mm) * 60 if mm else 0)
         want = float(exact) + float(ss + "." + ff if ff else ss) if ss else float(exact)
         if "hex" not in a or a["hex"] != want.hex():
